@@ -125,6 +125,13 @@ end subroutine caller
 
 
 @case
+def C28_array_dummy_case():
+    """Array dummy `a` referenced as `A(1)`: the occurrence with the other spelling is not substituted (v.name == arg.name)."""
+    return marked(args='ia', decls='integer, intent(inout) :: ia(0:4)', actuals='ia',
+                  dummies='a', cdecls='integer, intent(inout) :: a(0:4)', cbody='A(1) = a(2) + 1')
+
+
+@case
 def C28_print_in_callee():
     """PRINT / WRITE are opaque Intrinsic nodes: dummies and renamed locals inside them are not rewritten."""
     return marked(args='k', decls='integer, intent(inout) :: k\n    integer :: t', actuals='k',
